@@ -87,7 +87,7 @@ def gen_cfg(rng, template=None):
                nmodes=int(rng.choice([1, 2, 3, 3])), sigma=[None, None, -0.05][int(rng.integers(0, 3))], seedQ=bool(rng.random() < 0.7),
                agg=str(rng.choice(["PNorm", "KSFunction", "SoftMinMax"])), aggpar=float(rng.choice([4.0, 8.0, -6.0])),
                active=bool(rng.random() < 0.4), scaling=bool(rng.random() < 0.6), p=float(rng.choice([1.0, 3.0])),
-               omega=float(rng.choice([0.1, 0.3])), oseed=int(rng.integers(1 << 30)))
+               omega=float(rng.choice([0.1, 0.3])), oseed=int(rng.integers(1 << 30)), void=bool(rng.random() < 0.35))
     if rng.random() < 0.15 and t in ("T1",):
         cfg.update(dim=3, nx=2, ny=2, nz=2)
     if cfg["solver"] == "cg_gmg":
@@ -141,7 +141,18 @@ def build(pym, cfg):
 
     # --- design source + filters (shared front end)
     x = sig("x", sensitivity=np.zeros(nel)) if cfg["keep_alloc"] else sig("x")
-    sources.append((x, lambda seed: sub_rng(0x301, seed).uniform(0.3, 1.0, nel)))
+    # "void" variant (T1 without filters): some designs have a 2x2 patch of exactly-zero elements, so the node in its middle is
+    # decoupled in that design (grounded by a small constant diagonal) and coupled again in the next one
+    void = bool(cfg.get("void")) and t == "T1" and cfg["filt"] == "none" and not cfg["overhang"] and dom.dim == 2 \
+        and not cfg["solver"].startswith("dense")
+
+    def xset(seed):
+        v = sub_rng(0x301, seed).uniform(0.3, 1.0, nel)
+        if void and seed % 3 == 0:
+            i, j = (seed // 3) % (dom.nelx - 1), (seed // 7) % (dom.nely - 1)
+            v[dom.elements[i:i + 2, j:j + 2, 0].flatten()] = 0.0
+        return v
+    sources.append((x, xset))
     cur = x
     if cfg["filt"] == "conv":
         y = sig("xf")
@@ -156,7 +167,7 @@ def build(pym, cfg):
         mods.append(pym.OverhangFilter(cur, y, dom, direction=cfg["odir"]))
         cur = y
     e = sig("E")
-    mods.append(H["SIMP"](cur, e, xmin=0.1, p=cfg["p"]))
+    mods.append(H["SIMP"](cur, e, xmin=0.0 if void else 0.1, p=cfg["p"]))
     left = dom.nodes[0, ...].flatten()
     bc = np.sort(np.concatenate([left * ndof + d for d in range(ndof)]))
     right = dom.nodes[-1, ...].flatten()
@@ -178,7 +189,10 @@ def build(pym, cfg):
 
     if t in ("T1", "T5"):
         K = sig("K")
-        mods.append(pym.AssembleStiffness(e, K, dom, bc=bc))
+        if void:
+            mods.append(pym.AssembleStiffness(e, K, dom, bc=bc, add_constant=sps.identity(nn * ndof, format="csc") * 0.05))
+        else:
+            mods.append(pym.AssembleStiffness(e, K, dom, bc=bc))
         Kin = K
         if dense:
             Kd = sig("Kd")
